@@ -39,6 +39,7 @@
 #include <cocls/publisher.h>
 #include <cocls_verif/pthread_shim.h>
 #include "replay_common.h"
+#include "publisher_item.h"
 
 #include <coroutine>
 #include <deque>
@@ -49,20 +50,6 @@
 using namespace rp;
 using cocls_verif::vsched;
 using cocls_verif::op_t;
-
-// published item: its destructor poisons it, copying from a poisoned (destroyed) item is counted
-static const int POISON = -777;
-struct Item {
-    int v = 0;
-    static inline long stale = 0;
-    Item() = default;
-    explicit Item(int x) : v(x) {}
-    Item(const Item &o) : v(o.v) { if (o.v == POISON) stale++; }
-    Item(Item &&o) noexcept : v(o.v) { if (o.v == POISON) stale++; }
-    Item &operator=(const Item &o) { v = o.v; if (o.v == POISON) stale++; return *this; }
-    Item &operator=(Item &&o) noexcept { v = o.v; if (o.v == POISON) stale++; return *this; }
-    ~Item() { *const_cast<volatile int *>(&v) = POISON; }
-};
 
 using Pub = cocls::publisher<Item>;
 using Queue = Pub::queue;
@@ -135,7 +122,7 @@ struct Sub {
     ~Sub() { reader.reset(); if (obj) obj->~SubProbe(); }
     void deliver(bool r) {
         res = "none";
-        if (r) recv.push_back(obj->value().v); else eos = true;
+        if (r) recv.push_back(obj->value().shown()); else eos = true;
     }
 };
 
@@ -244,7 +231,7 @@ static J core(World &w) {
     m.set("closed", QProbe::closed(q));
     m.set("nextFree", QProbe::next_free(q));
     J win = J::list();
-    for (const Item &v : QProbe::window(q)) win.push(v.v);
+    for (const Item &v : QProbe::window(q)) win.push(v.shown());
     m.set("q", win);
     J rl = J::list();
     for (auto &r : QProbe::regs(q)) {
@@ -269,7 +256,7 @@ static J project(World &w) {
     m.set("pubAlive", w.pub_alive);
     m.set("nextFree", QProbe::next_free(q));
     J win = J::list();
-    for (const Item &v : QProbe::window(q)) win.push(v.v);
+    for (const Item &v : QProbe::window(q)) win.push(v.shown());
     m.set("q", win);
     m.set("stale", Item::stale);
     auto &regs = QProbe::regs(q);
